@@ -32,7 +32,7 @@ def sh(cmd, cwd, timeout=1500):
 
 def confirm(cand, new_id):
     tmp = tempfile.mkdtemp(prefix='confirm_')
-    wt = os.path.join(tmp, 'repo')
+    wt = os.path.join(tmp, 'wt_' + os.path.basename(tmp))
     res = {'id': new_id, 'ok': False}
     try:
         subprocess.check_call(['git', '-C', '/repo', 'worktree', 'add', '--detach', wt, 'HEAD'],
